@@ -123,7 +123,7 @@ ALT_VALUES = {
     'threshold': [0.5], 'fraction': [0.3, 0.8], 'total_points': [7], 'scale': [2.0], 'delta': [0.0, 3.0], 'eps_0': [1e-3], 'eps_1': [1e-3],
     'tol': [1e-1, 0.0], 'constrained_fraction': [0.05], 'constrained_weight': [1e3], 'estimation_poly_order': [1, 3], 'sampling': [2],
     'k': [0.5], 'beta': [0.3], 'max_iter_2': [2], 'tol_2': [1e-1], 'sigma': [1.0], 'scales': [[2, 3, 4]], 'min_fwhm': [2],
-    'cost_function_str': [], 'weights_as_mask': [True, False],
+    'cost_function_str': [], 'weights_as_mask': [True, False], 'num_eigens': [None, (6, 5)],
 }
 STR_VALUES = {
     'cost_function': {'penalized_poly': ['asymmetric_truncated_quadratic', 'symmetric_truncated_quadratic', 'asymmetric_huber', 'symmetric_huber',
